@@ -125,7 +125,8 @@ def rule_tombstone_first(chk, rid):
                       [call_recv(v) for v in r.value.values] == ["self.overlay", "self.fallback"] for r in rets)
             chk.ob(rid, f"{ov.qual}.contains", ok3, "contains = overlay.contains or fallback.contains", fn, mod, key="contains-union")
     ks = ov.methods.get("keys")
-    chk.ob(rid, f"{ov.qual}.keys", ".difference(self.removed)" in U(ks) or "- self.removed" in U(ks), "keys() subtracts the tombstones", ks, mod, key="keys-minus-removed")
+    filt_ = any(isinstance(c, ast.Compare) and len(c.ops) == 1 and isinstance(c.ops[0], ast.NotIn) and U(c.comparators[0]) == "self.removed" for c in ast.walk(ks))
+    chk.ob(rid, f"{ov.qual}.keys", ".difference(self.removed)" in U(ks) or "- self.removed" in U(ks) or filt_, "keys() subtracts the tombstones", ks, mod, key="keys-minus-removed")
     chk.ob(rid, f"{ov.qual}.keys", "self.overlay.keys()" in U(ks) and "self.fallback.keys()" in U(ks), "keys() unions both layers", ks, mod, key="keys-union")
     ld = ov.methods.get("listdir")
     # a membership test against the tombstone set whose left side is join_key(<dir>, <name>) - in a comprehension filter or an if
